@@ -61,6 +61,9 @@ type Pool struct {
 
 	pruningHeight uint64
 	pruningTime   time.Time
+
+	// duplicate votes reported by consensus, held until the block of their height is committed
+	consensusBuffer []*types.DuplicateVoteEvidence
 }
 
 // NewPool creates an evidence pool. If using an existing evidence store,
@@ -117,6 +120,9 @@ func (evpool *Pool) Update(state cstate.LatestBlockState, ev types.EvidenceList)
 
 	// update the state
 	evpool.updateState(state)
+
+	// the block of the new height exists now: evidence reported by consensus for it can be completed
+	evpool.processConsensusBuffer(state)
 
 	evpool.markEvidenceAsCommitted(ev)
 
@@ -345,21 +351,75 @@ func (evpool *Pool) AddEvidence(ev types.Evidence) error {
 // AddEvidenceFromConsensus should be exposed only to the consensus so it can add evidence to the pool
 // directly without the need for verification.
 func (evpool *Pool) AddEvidenceFromConsensus(ev types.Evidence) error {
-	// we already have this evidence, log this but don't return an error.
-	if evpool.isPending(ev) {
-		evpool.logger.Info("Evidence already pending, ignoring this one", "ev", ev)
-		return nil
+	dve, ok := ev.(*types.DuplicateVoteEvidence)
+	if !ok || dve == nil {
+		return fmt.Errorf("unsupported evidence from consensus: %T", ev)
 	}
 
-	if err := evpool.addPendingEvidence(ev); err != nil {
-		return fmt.Errorf("can't add evidence to pending list: %w", err)
-	}
-	// add evidence to be gossiped with peers
-	evpool.evidenceList.PushBack(ev)
+	// Consensus reports conflicting votes while their height is still being decided (or right after). Every
+	// other node verifies evidence against the time of the block at the evidence height and the validator
+	// set of that height, so the evidence is completed with exactly those once that block is committed;
+	// until then it is neither proposed nor gossiped.
+	evpool.mtx.Lock()
+	evpool.consensusBuffer = append(evpool.consensusBuffer, dve)
+	evpool.mtx.Unlock()
 
-	evpool.logger.Info("Verified new evidence of byzantine behavior", "evidence", ev)
-
+	evpool.processConsensusBuffer(evpool.State())
 	return nil
+}
+
+// processConsensusBuffer moves the buffered duplicate votes whose height is committed into the pending
+// evidence, giving them the block time and validator set of their height.
+func (evpool *Pool) processConsensusBuffer(state cstate.LatestBlockState) {
+	evpool.mtx.Lock()
+	buffer := evpool.consensusBuffer
+	evpool.consensusBuffer = nil
+	evpool.mtx.Unlock()
+
+	var waiting []*types.DuplicateVoteEvidence
+	for _, dve := range buffer {
+		if dve.Height() > state.LastBlockHeight {
+			waiting = append(waiting, dve)
+			continue
+		}
+
+		blockMeta := evpool.blockStore.LoadBlockMeta(dve.Height())
+		if blockMeta == nil {
+			evpool.logger.Error("Failed to load block meta for evidence from consensus", "height", dve.Height())
+			continue
+		}
+		valSet, err := evpool.stateDB.LoadValidators(dve.Height())
+		if err != nil {
+			evpool.logger.Error("Failed to load validators for evidence from consensus", "height", dve.Height(), "err", err)
+			continue
+		}
+		ev := types.NewDuplicateVoteEvidence(dve.VoteA, dve.VoteB, blockMeta.Header.Time, valSet)
+		if ev == nil {
+			evpool.logger.Error("Conflicting votes are not from a validator of their height", "height", dve.Height())
+			continue
+		}
+
+		// we already have this evidence, log this but don't return an error.
+		if evpool.isPending(ev) || evpool.isCommitted(ev) {
+			evpool.logger.Info("Evidence already pending or committed, ignoring this one", "ev", ev)
+			continue
+		}
+
+		if err := evpool.addPendingEvidence(ev); err != nil {
+			evpool.logger.Error("Can't add evidence to pending list", "err", err, "ev", ev)
+			continue
+		}
+		// add evidence to be gossiped with peers
+		evpool.evidenceList.PushBack(ev)
+
+		evpool.logger.Info("Verified new evidence of byzantine behavior", "evidence", ev)
+	}
+
+	if len(waiting) > 0 {
+		evpool.mtx.Lock()
+		evpool.consensusBuffer = append(waiting, evpool.consensusBuffer...)
+		evpool.mtx.Unlock()
+	}
 }
 
 // CheckEvidence takes an array of evidence from a block and verifies all the evidence there.
